@@ -6,6 +6,7 @@ CONSTANTS
   Lams <- MCLams
   ValsLo <- MCBin
   ValsHi <- MCBin
+  Kinds = {"arch", "param"}
   MaxDec = 2
   MaxOps = 6
 INVARIANT GramDef
